@@ -62,7 +62,16 @@ pub fn gen_assertion(c: &mut Ctx, cfg: &GenCfg, depth: usize) -> String {
         // assertion carrying its own assertion
         let aa = gen_assertion(c, cfg, 0);
         c.count("gen:decorated-assertion");
-        c.assign(&format!("add {} {}", a, aa))
+        let d1 = c.assign(&format!("add {} {}", a, aa));
+        if c.rng.chance(1, 3) {
+            // decorated at two levels, `{ {p: o} [a1] } [a2]`: a node whose subject is a node whose subject is the assertion
+            // (reachable through compress -> add -> uncompress_subject, decrypt_subject, or decoding)
+            let z = c.assign(&format!("compress {}", d1));
+            let bb = gen_assertion(c, cfg, 0);
+            let z2 = c.assign(&format!("add {} {}", z, bb));
+            let u = c.assign(&format!("uncompress_subject {}", z2));
+            if c.is_ok(&u) { c.count("gen:doubly-decorated-assertion"); u } else { d1 }
+        } else { d1 }
     } else { a }
 }
 
